@@ -20,6 +20,9 @@ def main():
     units = R.list_units(db)
     if len(sys.argv) > 1:
         units = [u for u in units if any(a in u[1] for a in sys.argv[1:])]
+    vf = os.environ.get("PYVC_VARIANT")
+    if vf:
+        units = [u for u in units if vf in str(sorted(u[2].items()))]
     t0 = time.time()
     bad = 0
     tot = ok = 0
